@@ -89,7 +89,7 @@ def obligations(cx):
                           statement="self-cooling: T[k+1] = T[k] - evaporation heat / (feed mass x mass-fraction-weighted specific heat)")
             else:
                 ft = st.field('feed_temperature')
-                cx.ob(t + ".isothermal", st.pc + [k >= 0, k < N], eq(ft.fn(k), T0) if isinstance(ft, Seq) else FALSE, function=fn, statement="isothermal models: the feed temperature never changes")
+                cx.ob(t + ".isothermal", st.pc + [k >= 0, k < N], eq(need_seq(ft, 'feed_temperature').fn(k), T0), function=fn, statement="isothermal models: the feed temperature never changes")
             if si == 0:
                 cx.cover(t, pre)
                 m0s = step0_subst(st)
